@@ -180,7 +180,11 @@ func (ex *Exec) execBlock(fr *Frame, b *ssa.BasicBlock, pc Term, st State) (Stat
 			}
 			ex.vc.assume(pc, and(app(SBool, "<=", intLit(int64(lo)), tup[0]), app(SBool, "<", tup[0], intLit(int64(len(in.States))))), "select index")
 			fr.vals[in] = Term{Tuple: tup}
-			for _, s := range in.States {
+			for i, s := range in.States {
+				// a case on a nil channel is never chosen
+				if ch := ex.val(fr, s.Chan); ch.Sort == SRef {
+					ex.vc.assume(pc, implies(eq(tup[0], intLit(int64(i))), not(eq(ch, tNull))), "select never takes a case on a nil channel")
+				}
 				if s.Dir == types.SendOnly {
 					ex.siteSend(fr, s.Chan, s.Send, s.Pos, pc, st)
 				}
